@@ -81,14 +81,13 @@ def saltToken (mac : Str → Str → List UInt8) (token remote : Str) : Except S
 
 /-- Outcome of `local.APIClientAuthorizationCurrent` for a legacy token. -/
 inductive Lookup where
-  | unauthorized                       -- error with HTTP status 401
-  | failed                             -- any other error
+  | error (status : Nat)               -- an error; `errStatus` gives its HTTP status (500 if it has none)
   | found (uuid apiToken : Str)        -- the api_client_authorization record
 deriving Repr, DecidableEq
 
 inductive ProvErr where
   | noCreds                            -- no credentials in the context
-  | backend                            -- local lookup failed (not 401)
+  | backend                            -- local lookup failed with a status other than 401
   | salt (e : SaltErr)                 -- salting the resolved v2 form failed
 deriving Repr, DecidableEq
 
@@ -103,8 +102,9 @@ def provOne (mac : Str → Str → List UInt8) (remote : Str) (lookup : Str → 
   | .error .format => .ok t
   | .error .obsolete =>
     match lookup t with
-    | .unauthorized => .ok t
-    | .failed => .error .backend
+    | .error st =>
+      if st = 401 then .ok t               -- unknown here: pass through unmodified
+      else .error .backend                 -- every other failure (403 scoped token, 5xx, …): give up
     | .found u a =>
       if remote.isPrefixOf u then .ok t
       else match saltToken mac (tokenV2 u a) remote with
